@@ -107,11 +107,14 @@ func ClassOf(s string) []string {
 	return out
 }
 
-// BoundaryString draws a long string whose length sits at or next to a typical buffer size (1 KiB, 4 KiB,
-// 8 KiB), made of a filler with a few tokens of the alphabet at the start, at the end and right at the boundary.
+// BoundaryString draws a long string whose length sits at or next to a typical buffer size (1 KiB ... 64 KiB), made of a filler with a few tokens of the alphabet at the start, at the end and right at the boundary.
 func BoundaryString(tokens []string) *rapid.Generator[string] {
 	return rapid.Custom(func(t *rapid.T) string {
 		size := rapid.SampledFrom([]int{1024, 1024, 4096, 4096, 8192}).Draw(t, "size")
+		if Rarely(t, "huge", 12) {
+			// the library's width measure is quadratic on long runs, so the biggest sizes are drawn sparingly
+			size = rapid.SampledFrom([]int{16384, 32768}).Draw(t, "huge-size")
+		}
 		delta := rapid.IntRange(-3, 3).Draw(t, "delta")
 		head := StringOf(tokens, 0, 2).Draw(t, "head")
 		tail := StringOf(tokens, 0, 3).Draw(t, "tail")
@@ -121,6 +124,27 @@ func BoundaryString(tokens []string) *rapid.Generator[string] {
 			n = 0
 		}
 		return head + strings.Repeat(filler, n/len(filler)) + tail
+	})
+}
+
+// ExpandingString draws a string of a length at or next to a small buffer size (16 ... 256 bytes) in which one
+// "hot" token - one that an escaper has to expand - makes up all, half, a few or one of the positions: output that
+// grows past whatever was reserved for it from the input length.
+func ExpandingString(hot []string) *rapid.Generator[string] {
+	return rapid.Custom(func(t *rapid.T) string {
+		size := rapid.SampledFrom([]int{16, 32, 32, 48, 64, 64, 128, 256}).Draw(t, "size") + rapid.IntRange(-4, 2).Draw(t, "delta")
+		h := rapid.SampledFrom(hot).Draw(t, "hot")
+		filler := rapid.SampledFrom([]string{"a", "a", " ", "\u00e9"}).Draw(t, "filler")
+		every := rapid.SampledFrom([]int{1, 2, 3, 8, 1000}).Draw(t, "every") // 1000: a single hot token, at the end
+		var b strings.Builder
+		for i := 0; b.Len() < size; i++ {
+			if i%every == every-1 || (every == 1000 && b.Len()+len(h) >= size) {
+				b.WriteString(h)
+			} else {
+				b.WriteString(filler)
+			}
+		}
+		return b.String()
 	})
 }
 
